@@ -1,4 +1,5 @@
 import PbProps.C01
 import PbProps.C02
 import PbProps.C10
+import PbProps.C12
 import PbProps.C18
